@@ -729,7 +729,7 @@ def plan(tier, seed):
         for i in range(16):
             tasks.append(("structure", {"max_leaves": 5, "index": i, "of": 16}))
         for _ in range(16):
-            tasks.append(("generated", {"examples": 6000}))
-        for _ in range(8):
-            tasks.append(("sequence", {"examples": 6000}))
+            tasks.append(("generated", {"examples": 25000}))
+        for _ in range(16):
+            tasks.append(("sequence", {"examples": 10000}))
     return tasks
